@@ -200,10 +200,16 @@ def compile_closure_with_globals_capturing(
     builder = CodeBuilder()
 
     global_namespace_dict = {}
+    # the names of globals must not coincide with any local name of the closure maker
+    # (e.g. constants `foo` and `g_foo` would produce `foo = g_foo` and `g_foo = g_g_foo`)
+    occupied_names = {closure_name, *namespace.keys()}
     for name, value in namespace.items():
         value_literal = get_literal_expr(value)
         if value_literal is None:
             global_name = f"g_{name}"
+            while global_name in occupied_names:
+                global_name = f"g_{global_name}"
+            occupied_names.add(global_name)
             global_namespace_dict[global_name] = value
             builder += f"{name} = {global_name}"
         else:
